@@ -53,7 +53,14 @@ Query ==
     /\ UNCHANGED cur
     /\ l' = l + 1
 
-TraceNext == Build \/ Query
+\* The run iterator of the run-length vector yields exactly the maximal runs with running counters.
+RunIter ==
+    /\ l <= Len(Rec) /\ Rec[l].e = "runs"
+    /\ Rec[l].items = RunItems(cur)
+    /\ UNCHANGED cur
+    /\ l' = l + 1
+
+TraceNext == Build \/ Query \/ RunIter
 TraceSpec == TraceInit /\ [][TraceNext]_vars
 
 \* Layer A invariant evaluated in every state of the validated trace.
